@@ -2,7 +2,9 @@
    A builder is the list of its decisions in append order.  Python truthiness of a diff argument
    (None and [] are falsy) is [truthy]; `==` on diff entries is dict equality, i.e. Python == on the
    values ([entry_pyeqb]) unless the generated source fact says the code uses strict equality. *)
-From Coq Require Import List NArith ZArith Bool Lia String.
+From Coq Require Import String.
+From Coq Require Import List NArith ZArith Bool Lia.
+
 From NB Require Import Base.Res Base.Json Diff.DiffFormat Diff.Patch Diff.Codec Merge.SortKey.
 Import ListNotations.
 
@@ -184,14 +186,14 @@ Definition b_remote (B : builder) p l r : res builder :=
 Definition b_custom (B : builder) p l r (custom : option diff) (conflict : bool) (strategy : option pystr)
   : builder := add_decision B p ACustom l r conflict strategy custom None.
 
-Definition s_use_local := of_ascii "use-local"%string.
-Definition s_use_remote := of_ascii "use-remote"%string.
-Definition s_use_base := of_ascii "use-base"%string.
-Definition s_union := of_ascii "union"%string.
-Definition s_clear := of_ascii "clear"%string.
-Definition s_take_max := of_ascii "take-max"%string.
-Definition s_fail := of_ascii "fail"%string.
-Definition s_mergetool := of_ascii "mergetool"%string.
+Definition s_use_local := of_ascii "use-local".
+Definition s_use_remote := of_ascii "use-remote".
+Definition s_use_base := of_ascii "use-base".
+Definition s_union := of_ascii "union".
+Definition s_clear := of_ascii "clear".
+Definition s_take_max := of_ascii "take-max".
+Definition s_fail := of_ascii "fail".
+Definition s_mergetool := of_ascii "mergetool".
 
 (* `if not strategy`: None and "" *)
 Definition strategy_set (s : option pystr) : bool :=
@@ -267,12 +269,12 @@ Definition push_patch_decision (d : decision) (prefix : list key) : res decision
 (* ---------- action names (the strings nbdime stores in decision.action) ---------- *)
 Definition action_name (a : action) : pystr :=
   match a with
-  | ABase => of_ascii "base"%string | ALocal => of_ascii "local"%string | ARemote => of_ascii "remote"%string
-  | AEither => of_ascii "either"%string | ACustom => of_ascii "custom"%string
-  | ALocalThenRemote => of_ascii "local_then_remote"%string
-  | ARemoteThenLocal => of_ascii "remote_then_local"%string
-  | AClear => of_ascii "clear"%string | ARemove => of_ascii "remove"%string
-  | AClearAll => of_ascii "clear_all"%string | ATakeMax => of_ascii "take_max"%string
+  | ABase => of_ascii "base" | ALocal => of_ascii "local" | ARemote => of_ascii "remote"
+  | AEither => of_ascii "either" | ACustom => of_ascii "custom"
+  | ALocalThenRemote => of_ascii "local_then_remote"
+  | ARemoteThenLocal => of_ascii "remote_then_local"
+  | AClear => of_ascii "clear" | ARemove => of_ascii "remove"
+  | AClearAll => of_ascii "clear_all" | ATakeMax => of_ascii "take_max"
   | AOther s => s
   end.
 
